@@ -67,6 +67,20 @@ theorem fresh_sleepOk (now id dl : Nat) : SleepOk now { id := id, deadline := dl
 
 theorem poll_now (f : Fut) (c : Ctx) : (poll f c).2.now = c.now := (moves_poll f (Moves.refl c)).now
 
+theorem timeoutStep_precise (s : Sleep) (r : Option Fut × Ctx) (hs : SleepOk r.2.now s) (h1 : LogPrecise r.2.log) :
+    LogPrecise (timeoutStep s r).2.log := by
+  obtain ⟨re, c1⟩ := r
+  cases re with
+  | none =>
+    simp only [timeoutStep]
+    exact precise_obs (c := (c1.emit _).emit _) h1 _
+  | some e' =>
+    simp only [timeoutStep]
+    split
+    · rename_i v hv
+      exact precise_fin_own (c := ((c1.emit _).emit _).emit _) h1 "el" s hs (timeout_poll_elapsed hv)
+    · exact h1
+
 /-- **conditional precision of one poll**: if no own sleep of the running future is overdue, every
     own-sleep completion this poll observes is at max(deadline, first poll) -/
 theorem poll_precise (f : Fut) : ∀ c : Ctx, OwnOk c.now f → LogPrecise c.log → LogPrecise (poll f c).2.log := by
@@ -80,37 +94,13 @@ theorem poll_precise (f : Fut) : ∀ c : Ctx, OwnOk c.now f → LogPrecise c.log
     simp only [poll]
     have h1 := ih { c with nextId := c.nextId + 1 } (fun s hs => ho s (by simpa [own] using hs)) h
     have hn := poll_now e { c with nextId := c.nextId + 1 }
-    split
-    · rename_i c1 heq
-      rw [heq] at h1
-      exact precise_obs (c := (c1.emit _).emit _) h1 _
-    · rename_i e' c1 heq
-      rw [heq] at h1 hn
-      split
-      · rename_i v hv
-        have hel := timeout_poll_elapsed hv
-        simp only at hn
-        exact precise_fin_own (c := ((c1.emit _).emit _).emit _) h1 "el" { id := c.nextId, deadline := c.now + d }
-          (fresh_sleepOk _ _ _) hel
-      · exact h1
+    exact timeoutStep_precise _ _ (by rw [hn]; exact fresh_sleepOk _ _ _) h1
   | timeoutRun s e ih =>
     intro c ho h
     simp only [poll]
     have h1 := ih c (fun s' hs' => ho s' (by simp [own, hs'])) h
     have hn := poll_now e c
-    split
-    · rename_i c1 heq
-      rw [heq] at h1
-      exact precise_obs (c := (c1.emit _).emit _) h1 _
-    · rename_i e' c1 heq
-      rw [heq] at h1 hn
-      split
-      · rename_i v hv
-        have hel := timeout_poll_elapsed hv
-        simp only at hn
-        have hs : SleepOk c1.now s := by rw [hn]; exact ho s (by simp [own])
-        exact precise_fin_own (c := ((c1.emit _).emit _).emit _) h1 "el" s hs hel
-      · exact h1
+    exact timeoutStep_precise _ _ (by rw [hn]; exact ho s (by simp [own])) h1
   | select a b iha ihb =>
     intro c ho h
     simp only [poll]
